@@ -215,3 +215,70 @@ ASSUMPTIONS = ["astropy QTable/Row model (contracts/tablemodel.py): row/slice/ma
                "astropy Quantity/Time arithmetic model; u.dimensionless_angles() treats radians as dimensionless",
                "the RV-curve invariance K'(cos(w'+f)+e cos w') = K(cos(w+f)+e cos w) follows from the proved omega/K clauses by lemmas/WrapK.lean (wrapK_rv)"]
 NOT_DECIDED = []
+
+
+# ---- unpack: column j of the packed array becomes the parameter named by the j-th key of `units`, with that unit; metadata from the keywords -----
+def _res_js_ctor(ex, path, bound, node):
+    """JokerSamples(t_ref=..., poly_trend=..., n_offsets=...) as a callee (assumed; exercised by the twin): an empty table carrying that metadata"""
+    meta = PyDict()
+    for k in ("t_ref", "poly_trend", "n_offsets"):
+        meta = meta.set(k, bound.get(k))
+    return Obj("JokerSamples", {"tbl": T.qtable(PyDict(), meta, None), "_cache": PyDict(), "__qualclass__": "thejoker.samples.JokerSamples",
+                                "cls_name": "JokerSamples"})
+
+
+def _res_js_setitem(ex, path, bound, node):
+    """samples[name] = quantity as a callee (assumed; exercised by the twin): the column is stored under that name (insertion order kept)"""
+    self, key, val = bound["self"], bound["key"], bound["val"]
+    return self.with_field("tbl", T._tbl_setitem(ex, path, self.fields["tbl"], key, val, node))
+
+
+js_ctor = Contract("thejoker.samples.JokerSamples.__init__", PROPERTY, ensures={}, result=_res_js_ctor)
+js_setitem = Contract(S + "__setitem__", PROPERTY, ensures={}, result=_res_js_setitem)
+
+
+def packed_param(npars):
+    def build(ex, path, name):
+        n = z3.Int("n_rows")
+        path.assume(n >= 1)
+        return fresh_arr("packed", 2, "real", [n, npars])
+    return build
+
+
+def units_in_order(names):
+    def build(ex, path, name):
+        d = PyDict()
+        for k in names:
+            dim = {"P": TIME, "omega": ANGLE, "M0": ANGLE, "s": SPEED, "K": SPEED, "v0": SPEED, "e": (0, 0, 0), "dv0_1": SPEED, "v1": (-2, 1, 0)}[k]
+            u_ = A.sym_unit(f"{k}_unit", dim)
+            path.assume(*u_.sym_facts)
+            d = d.set(k, u_)
+        return d
+    return build
+
+
+def _unpack_contracts():
+    out = []
+    # the kernel's order: nonlinear, K, v0, offsets, then trend terms; and the nonlinear-only prefix (5 columns of a longer units table)
+    for label, names, npars in (("nonlinear+K,v0", ALLP, 7), ("with-offset-and-trend", NL + ["K", "v0", "dv0_1", "v1"], 9), ("first-5-of-7", ALLP, 5)):
+        ens = {"one-column-per-packed-column-in-the-order-of-the-units-table": "list(result.tbl.colnames) == " + repr(list(names[:npars])),
+               "metadata-from-the-keywords": "result.tbl.meta['t_ref'] is kwargs['t_ref'] and result.tbl.meta['poly_trend'] is kwargs['poly_trend'] and "
+                                             "result.tbl.meta['n_offsets'] is kwargs['n_offsets']"}
+        for j, nm in enumerate(names[:npars]):
+            ens[f"packed-column-{j}-is-{nm}-with-the-unit-listed-for-it"] = (
+                f"result.tbl['{nm}'].unit is units['{nm}'] and all(result.tbl['{nm}'].value[i] == packed_samples[i, {j}] for i in range(packed_samples.shape[0]))")
+        out.append(Contract(S + "unpack", PROPERTY,
+                            params={"cls": lambda ex, path, n: NameRef("thejoker.samples.JokerSamples"), "packed_samples": packed_param(npars),
+                                    "units": units_in_order(names),
+                                    "kwargs": lambda ex, path, n: PyDict([("t_ref", A.time_obj(z3.Real("t_ref_bmjd"))), ("poly_trend", z3.Int("poly_trend")),
+                                                                          ("n_offsets", z3.Int("n_offsets"))])},
+                            cases=[{"_name": label}], ensures=ens))
+    for c in out:
+        c.callees = dict(CALLEES_UNPACK)
+    return out
+
+
+CALLEES_UNPACK = {"thejoker.samples.JokerSamples": js_ctor, "thejoker.samples.JokerSamples.__init__": js_ctor, "JokerSamples.__setitem__": js_setitem,
+                  S + "__setitem__": js_setitem}
+unpack = _unpack_contracts()
+CONTRACTS += unpack
